@@ -50,8 +50,8 @@ EXCLUDED = [
     "whitespace-only lines and, for clean_file, empty lines (a file of bare newlines is kept by clean_file; "
     "whether that is 'stored empty' is not stated)",
     "keywords that are digit-only or contain '#' (they would rewrite the harness's line tags)",
-    "specs exempt from every cleaning step (no_redact + all six no_obfuscate entries): cleaning is skipped "
-    "altogether, so nothing is 'left' by cleaning",
+    "specs exempt from every cleaning step are generated only in the in-process 'order' sub-check (nothing "
+    "competes there, so the hash-seed sub-check has nothing to observe)",
     "width-preserving mode (covered in C08 on netstat-shaped lines only)",
 ]
 
@@ -475,7 +475,21 @@ def _compete_case(draw, tier, for_order=False):
         keys = draw(st.lists(st.sampled_from(["#"] + tg.FILLER_WORDS[:5]), min_size=1, max_size=2, unique=True))
         allow = dict((k, draw(st.sampled_from([1, 2, 10000]))) for k in keys)
     no_red = draw(tg.rarely(8))
-    if no_red and set(no_obf) == set(c08.OBF_NAMES):
+    if for_order and draw(tg.rarely(6)):
+        # a spec exempt from every cleaning step (machine-id like): nothing rewrites it, but a spec left
+        # with no non-blank line still has to be dropped instead of being stored empty
+        no_obf = list(c08.OBF_NAMES)
+        no_red = True
+        allow = None
+        if entry == "write" or draw(st.booleans()):
+            # ContentProvider.write skips cleaning altogether when all six obfuscations are exempt (then
+            # nothing is "left by cleaning" and the content is stored as it is - by design, not asserted);
+            # exempting every *active* one (no keyword configured) still goes through the cleaner
+            no_obf = [n for n in c08.OBF_NAMES if n != "keyword"]
+            kws = []
+        if entry in ("list", "write") and draw(st.booleans()):
+            lines = [{"tag": None, "tagpos": "start", "parts": []} for _ in range(draw(st.integers(1, 4)))]
+    elif no_red and set(no_obf) == set(c08.OBF_NAMES):
         no_red = False
     return {"fqdn": w["fqdn"], "obf": obf, "keywords": kws, "patterns": patterns, "no_obfuscate": no_obf,
             "no_redact": no_red, "allowlist": allow, "entry": entry, "width": False, "final_newline": True,
